@@ -17,6 +17,7 @@
 #define ROMEA_CORE_COMMON__MONITORING__RATEMONITORING_HPP_
 
 // std
+#include <mutex>
 #include <queue>
 #include <atomic>
 
@@ -47,6 +48,7 @@ public:
   bool timeout(const Duration & duration);
 
 private:
+  mutable std::mutex mutex_;
   size_t windowSize_;
 
   Duration lastPeriod_;
